@@ -24,6 +24,7 @@ Res(acc, err, vres, force, limit, reqFin) == [err |-> err, accepted |-> acc, vre
 AcceptRes == Res(TRUE, FALSE, "", FALSE, 0, FALSE)
 ValSet == {Res(a, e, vr, f, l, rf) : a \in BOOLEAN, e \in BOOLEAN, vr \in {"", "r1"}, f \in BOOLEAN, l \in {0, 5}, rf \in BOOLEAN}
 ValFew == {AcceptRes, Res(FALSE, FALSE, "r1", FALSE, 0, FALSE), Res(TRUE, TRUE, "", FALSE, 0, FALSE), Res(TRUE, FALSE, "r1", TRUE, 9, TRUE),
+           Res(FALSE, FALSE, "", TRUE, 0, FALSE), Res(FALSE, FALSE, "", FALSE, 5, FALSE),        \* rejections that also carry a pause condition (forced / limit already reached)
            Res(TRUE, FALSE, "", FALSE, 5, FALSE), Res(TRUE, FALSE, "", FALSE, 9, FALSE), Res(TRUE, FALSE, "r3", FALSE, 0, TRUE),
            Res(TRUE, FALSE, "", FALSE, 9, TRUE)}
 
@@ -53,6 +54,7 @@ CallbackStims == DataStims \cup {St("OnChannelOpened"), St("OnTransferInitiated"
                   \cup {[St(k) EXCEPT !.args.err = "e1"] : k \in {"OnRequestCancelled","OnRequestDisconnected","OnSendDataError","OnReceiveDataError"}}
 ApiStims == WithFail({[St("SendVoucher") EXCEPT !.msg.v = "v4"], [St("SendVoucherResult") EXCEPT !.msg.v = "r4"], St("Pause"), St("Close"), [St("CloseErr") EXCEPT !.args.err = "e1"]})
             \cup {St("Resume")}
+            \cup {[St("Close") EXCEPT !.openFail = TRUE], [St("CloseErr") EXCEPT !.args.err = "e1", !.openFail = TRUE]}   \* the transport does not know the channel: close still cancels
             \cup WithFail({[St("UpdateValidation") EXCEPT !.val = v] : v \in ValFew})
             \cup WithFail({[St("Restart") EXCEPT !.val = v] : v \in {AcceptRes, Res(FALSE, FALSE, "", FALSE, 0, FALSE), Res(TRUE, TRUE, "", FALSE, 0, FALSE)}})
             \cup {[St("Restart") EXCEPT !.openFail = TRUE]}
